@@ -38,7 +38,7 @@ META = {
             'running implementation (vm_compute); the direct oracle mutates the peer traffic of 28 handshake flavours (incl. the second message of HRR/resumption/PSK exchanges) in '
             'both roles against live endpoints.',
     'note': 'Partial: crash-freedom is proved only for the two translated hello regions; the rest of the handshake '
-            'coroutines is covered by the live mutation search only (one known finding remains on HEAD: unchecked CertificateVerify scheme, fix C08-18 proposed). Trusted: Coq kernel + '
+            'coroutines is covered by the live mutation search only (no known finding remains on HEAD 7b4ef0e). Trusted: Coq kernel + '
             'vm_compute; translator/crashlite.py and the schema of parsed values (validated against the real parser and '
             'endpoints on every run); hand models C08_Funnel / C08_Work tied by correspondence only; decompressor contract '
             'is a premise (measured on the zlib call; brotli/zstd bindings not installed); work/memory thresholds are '
